@@ -40,6 +40,22 @@ size_t __addr[HEAP_N];
  * is appended (its index is |mIssues|, larger than every stored one).  Pointwise: at G.       */
 #define LAST_BELOW(L, V) (V(L).n != 0 ==> V(L).d[V(L).n - 1] < ISSUES(L).n)
 
+/* ---- what importer.cpp relies on when it deletes errors again (fetchComponent, fetchUnits) ----------------
+ * TAIL_AT(L, t, g), for every g: the last t entries of mErrors are the positions of the last t issues, in
+ * order, and no other stored index points into those t issues.  The ghost T is arbitrary.               */
+size_t T;
+#define TAIL_AT(L, t, g)                                                                      \
+    ((t) <= ERRORS(L).n && (t) <= ISSUES(L).n &&                                               \
+     ((g) < ERRORS(L).n && (g) >= ERRORS(L).n - (t) ==> ERRORS(L).d[g] == ISSUES(L).n - (ERRORS(L).n - (g))) && \
+     ((g) < ERRORS(L).n - (t) ==> ERRORS(L).d[g] < ISSUES(L).n - (t)) &&                        \
+     ((g) < WARNINGS(L).n ==> WARNINGS(L).d[g] < ISSUES(L).n - (t)) &&                          \
+     ((g) < MESSAGES(L).n ==> MESSAGES(L).d[g] < ISSUES(L).n - (t)))
+/* the object X (ghost, arbitrary) is not listed: changing its level cannot break the invariant */
+ref X;
+#define NOT_LISTED_V(L, V, x) (G < V(L).n ==> ISSUES(L).d[V(L).d[G]] != (x))
+#define NOT_LISTED(L, x) (NOT_LISTED_V(L, ERRORS, x) && NOT_LISTED_V(L, WARNINGS, x) && NOT_LISTED_V(L, MESSAGES, x))
+#define LASTS(L) (LAST_BELOW(L, ERRORS) && LAST_BELOW(L, WARNINGS) && LAST_BELOW(L, MESSAGES))
+
 #define FRESH_VEC(V, T) __CPROVER_is_fresh(V.d, sizeof(T) * (size_t)PW_CAP)
 #define FRESH_LOGGER(L) (FRESH_VEC(ISSUES(L), ref) && FRESH_VEC(ERRORS(L), size_t) && FRESH_VEC(WARNINGS(L), size_t) && FRESH_VEC(MESSAGES(L), size_t))
 
@@ -54,11 +70,15 @@ size_t __addr[HEAP_N];
     __CPROVER_requires(LEVEL_OF(issue) >= 0 && LEVEL_OF(issue) <= 2)                           \
     __CPROVER_requires(WF_LOGGER(self))                                                        \
     __CPROVER_requires(LAST_BELOW(self, ERRORS) && LAST_BELOW(self, WARNINGS) && LAST_BELOW(self, MESSAGES)) \
+    __CPROVER_requires(TAIL_AT(self, T, G) && T < PW_CAP && NOT_LISTED(self, X))                \
     __CPROVER_assigns(ISSUES(self), ERRORS(self), WARNINGS(self), MESSAGES(self),              \
                       __CPROVER_object_whole(ISSUES(self).d), __CPROVER_object_whole(ERRORS(self).d), \
                       __CPROVER_object_whole(WARNINGS(self).d), __CPROVER_object_whole(MESSAGES(self).d)) \
     __CPROVER_ensures(WF_LOGGER(self))                                                         \
     __CPROVER_ensures(LAST_BELOW(self, ERRORS) && LAST_BELOW(self, WARNINGS) && LAST_BELOW(self, MESSAGES)) \
+    __CPROVER_ensures(LEVEL_OF(issue) == LVL_ERROR ==> TAIL_AT(self, T + 1, G))                \
+    __CPROVER_ensures(TAIL_AT(self, 0, G))                                                     \
+    __CPROVER_ensures(X != issue ==> NOT_LISTED(self, X))                                      \
     __CPROVER_ensures(ISSUES(self).n == __CPROVER_old(ISSUES(self).n) + 1)                     \
     __CPROVER_ensures(ISSUES(self).d[__CPROVER_old(ISSUES(self).n)] == issue)                  \
     __CPROVER_ensures(G < __CPROVER_old(ISSUES(self).n) ==> ISSUES(self).d[G] == __CPROVER_old(ISSUES(self).d)[G]) \
@@ -109,17 +129,23 @@ size_t __addr[HEAP_N];
     __CPROVER_ensures(index < ISSUES(self).n ==> __CPROVER_return_value == ISSUES(self).d[index]) \
     __CPROVER_assigns()
 
-/* removeError(index): the code erases the issue and its index entry but does not renumber the
- * indices stored after it; the strongest contract the code supports is therefore "the error is
- * the last issue" (both call sites in importer.cpp establish it).                            */
+/* removeError(index): the code erases the issue and its index entry but does not renumber the indices
+ * stored after it.  It is therefore correct exactly when the error is the last issue; that is what TAIL
+ * (with t >= 1, index the last error) provides.  TAIL is used at the two indices the code reads.       */
 #define __FC_Logger_LoggerImpl_removeError                                                     \
-    __CPROVER_requires(OBJ(self) && FRESH_LOGGER(self) && WF_LOGGER(self))                     \
-    __CPROVER_requires(index < ERRORS(self).n && index == ERRORS(self).n - 1)                  \
-    __CPROVER_requires(ERRORS(self).d[index] == ISSUES(self).n - 1)                            \
-    __CPROVER_requires(G != index && G + 1 != index ==> 1)                                     \
+    __CPROVER_requires(OBJ(self) && FRESH_LOGGER(self) && WF_LOGGER(self) && LASTS(self))      \
+    __CPROVER_requires(T >= 1 && TAIL_AT(self, T, G) && TAIL_AT(self, T, index) && TAIL_AT(self, T, G + 1)) \
+    __CPROVER_requires((WARNINGS(self).n != 0 ==> TAIL_AT(self, T, WARNINGS(self).n - 1)) && (MESSAGES(self).n != 0 ==> TAIL_AT(self, T, MESSAGES(self).n - 1)) && \
+                       (ERRORS(self).n >= 2 ==> TAIL_AT(self, T, ERRORS(self).n - 2)))         \
+    __CPROVER_requires(index == ERRORS(self).n - 1 && NOT_LISTED(self, X))                     \
     __CPROVER_assigns(ISSUES(self), ERRORS(self))                                              \
+    __CPROVER_ensures(WF_LOGGER(self))                                                         \
+    __CPROVER_ensures(LASTS(self))                                                             \
+    __CPROVER_ensures(TAIL_AT(self, T - 1, G))                                                 \
+    __CPROVER_ensures(NOT_LISTED(self, X))                                                     \
     __CPROVER_ensures(ISSUES(self).n == __CPROVER_old(ISSUES(self).n) - 1)                     \
     __CPROVER_ensures(ERRORS(self).n == __CPROVER_old(ERRORS(self).n) - 1)                     \
+    __CPROVER_ensures(WARNINGS(self).n == __CPROVER_old(WARNINGS(self).n) && MESSAGES(self).n == __CPROVER_old(MESSAGES(self).n)) \
     __CPROVER_ensures(G < ISSUES(self).n ==> ISSUES(self).d[G] == __CPROVER_old(ISSUES(self).d)[G]) \
     __CPROVER_ensures(G < ERRORS(self).n ==> ERRORS(self).d[G] == __CPROVER_old(ERRORS(self).d)[G])
 
